@@ -147,7 +147,10 @@ def exec_step(world, step, idx):
             ev.notes["bulk_refused"] = refused
             ev.notes["bulk"] = len(step["names"])
         except Exception as e:
-            ev.errors.append({"kind": "harness_error", "text": "bulk claim failed: %r" % (e,)})
+            import sys as _sys
+            from .world import repo_frame
+            ev.errors.append({"kind": "internal_error", "type": type(e).__name__, "text": str(e)[:300],
+                              "where": repo_frame(_sys.exc_info()[2]), "conn": None, "in": "bulk"})
         world.end()
     elif op == "quiesce":
         for cid, c in sorted(world.conns.items()):
